@@ -120,6 +120,11 @@ def command_for(payload):
         return ["data_load", bytes(x & 0xFF for x in cx.array(obj, 32)).hex()] if obj else None
     if unit == "U.bd.encode":
         return ["bday", str(cx.scalar("time") & 0xFFFFFFFFFFFFFFFF)]
+    if unit == "U.dep.stdlib_time":
+        t = cx.scalar("h_time_ret")
+        if t >= 1 << 63:
+            t -= 1 << 64
+        return ["stdlib_time", str(t)]
     if unit == "U.bd.decode":
         return ["bday_decode", str(cx.scalar("birthday"))]
     if unit == "U.ft.enable":
